@@ -868,6 +868,8 @@ class DynamicSlicer:
         for instruction in instructions:
             if instruction.file == AST_FILENAME:  # do not include test statements
                 continue
+            if instruction.lineno is None:  # compiler-generated instruction without a source line
+                continue
             if instruction.lineno == curr_line:  # only add new lines
                 continue
             curr_line = instruction.lineno
